@@ -4,7 +4,7 @@
   next predicate call) produces a promise that is SPECIFIED (`PSpec`) by the result of the
   reference's `solve` on that resolvent.
 -/
-import PrologVerif.Proofs.RefineStep
+import PrologVerif.Proofs.RefineCall
 import PrologVerif.Proofs.CollectCanon
 namespace PrologVerif.Refine
 open PrologVerif PrologVerif.VM PrologVerif.DecompileCompile PrologVerif.Activation
@@ -156,14 +156,14 @@ theorem Lv.mem_of_lev {lv : Lv} {c l : Nat} (h : lv.lev c = some l) : (c, some l
 /-- a continuation point of the VM (`K` under `env`, variable counter at least `nvar`) against a
     configuration of the reference (`R`, `q`, `nv`) on a path with level map `lv`; `P` says more
     about σ, π, D -/
-def SimAt (tmpl : Term) (max : Nat) (lv : Lv) (K : Cont) (env : Env) (nvar : Nat) (R : List SLD.Frame) (q : Term)
+def SimAt (fl : Bool) (tmpl : Term) (max : Nat) (lv : Lv) (K : Cont) (env : Env) (nvar : Nat) (R : List SLD.Frame) (q : Term)
     (nv : Nat) (P : Subst → (Nat → Nat) → (Nat → Prop) → Prop) : Prop :=
-  ∃ N σ π D G, N ≤ nvar ∧ SimW tmpl N env σ π D nv ∧ ContGoals tmpl max K G ∧ GRel lv σ π D G R ∧
+  ∃ N σ π D G, N ≤ nvar ∧ SimW tmpl N env σ π D nv ∧ ContGoals fl tmpl max K G ∧ GRel lv σ π D G R ∧
     CutsOK lv G ∧ q = img σ π tmpl ∧ P σ π D
 
-theorem SimAt.mono {tmpl : Term} {max : Nat} {lv : Lv} {K : Cont} {env : Env} {nvar nvar' : Nat} {R : List SLD.Frame}
+theorem SimAt.mono {fl : Bool} {tmpl : Term} {max : Nat} {lv : Lv} {K : Cont} {env : Env} {nvar nvar' : Nat} {R : List SLD.Frame}
     {q : Term} {nv : Nat} {P : Subst → (Nat → Nat) → (Nat → Prop) → Prop}
-    (h : SimAt tmpl max lv K env nvar R q nv P) (hn : nvar ≤ nvar') : SimAt tmpl max lv K env nvar' R q nv P := by
+    (h : SimAt fl tmpl max lv K env nvar R q nv P) (hn : nvar ≤ nvar') : SimAt fl tmpl max lv K env nvar' R q nv P := by
   obtain ⟨N, σ, π, D, G, h1, h2⟩ := h
   exact ⟨N, σ, π, D, G, Nat.le_trans h1 hn, h2⟩
 
@@ -172,38 +172,179 @@ def errT (F c : Term) : Term := .app "error" (.cons F (.cons c .nil))
 /-- what the search below a promise `p` (in state `m`, on a path with level map `lv`, `ans0` the
     answers when the corresponding reference computation — at depth `d` — started) has to deliver:
     the result `r` of that computation -/
-inductive PSpec (tmpl : Term) (max : Nat) (prog : List Term) : Lv → Nat → Pr → MS → List Term → SLD.Res → Prop
+inductive PSpec (fl : Bool) (tmpl : Term) (max : Nat) (prog : List Term) : Lv → Nat → Pr → MS → List Term → SLD.Res → Prop
   | fail {lv : Lv} {d : Nat} {m : MS} {ans0 : List Term} : m.user.answers = ans0 →
-      PSpec tmpl max prog lv d failP m ans0 ⟨[], .exhausted⟩
+      PSpec fl tmpl max prog lv d failP m ans0 ⟨[], .exhausted⟩
   | answer {lv : Lv} {d : Nat} {m : MS} {ans0 : List Term} {a q : Term} : m.user.answers = a :: ans0 → AnsRel tmpl a q →
-      PSpec tmpl max prog lv d (if (a :: ans0).length ≥ max then okP else failP) m ans0
+      PSpec fl tmpl max prog lv d (if (a :: ans0).length ≥ max then okP else failP) m ans0
         ⟨[q], if max - ans0.length = 1 then .full else .exhausted⟩
   | err {lv : Lv} {d : Nat} {m : MS} {ans0 : List Term} {F c1 c2 : Term} : m.user.answers = ans0 →
-      PSpec tmpl max prog lv d (errP (.exc (errT F c1))) m ans0 ⟨[], .raised (errT F c2) []⟩
+      PSpec fl tmpl max prog lv d (errP (.exc (errT F c1))) m ans0 ⟨[], .raised (errT F c2) []⟩
   | alts {lv : Lv} {m : MS} {ans0 : List Term} {id : Nat} {cs : List Term} {g g2 : Term} {K : Cont} {env : Env}
       {R : List SLD.Frame} {q : Term} {nv n d : Nat} {r : SLD.Res} :
       m.user.answers = ans0 → id ≠ 0 →
-      (∀ c ∈ cs, clauseOK c = true ∧ headKey c = (functorName g, (argList g).length)) →
+      (∀ c ∈ cs, clauseS fl c = true ∧ headKey c = (functorName g, (argList g).length)) →
       Shape g →
-      SimAt tmpl max lv K env m.user.nextVar R q nv (fun σ π D => InD D g ∧ g2 = img σ π g) →
+      SimAt fl tmpl max lv K env m.user.nextVar R q nv (fun σ π D => InD D g ∧ g2 = img σ π g) →
       SLD.solveAlts false (progS prog) n d nv (cs.map (fun c => .clause g2 (ruleOf c))) R q (max - ans0.length) = some r →
-      PSpec tmpl max prog lv d { id := id, delayed := cs.map (fun c => Thunk.clause (clauseOf c) (argList g) K env id) }
+      PSpec fl tmpl max prog lv d { id := id, delayed := cs.map (fun c => Thunk.clause (clauseOf c) (argList g) K env id) }
         m ans0 r
   | direct {lv : Lv} {m : MS} {ans0 : List Term} {id : Nat} {ct : Clause} {K : Cont} {env : Env}
       {R : List SLD.Frame} {q : Term} {nv n d : Nat} {r : SLD.Res} :
       m.user.answers = ans0 → id ≠ 0 → ct.code = [.exit] → ct.vars = [] →
-      SimAt tmpl max lv K env m.user.nextVar R q nv (fun _ _ _ => True) →
+      SimAt fl tmpl max lv K env m.user.nextVar R q nv (fun _ _ _ => True) →
       SLD.solve false (progS prog) n d nv R q (max - ans0.length) = some r →
-      PSpec tmpl max prog lv d { id := id, delayed := [Thunk.clause ct [] K env id] } m ans0 r
+      PSpec fl tmpl max prog lv d { id := id, delayed := [Thunk.clause ct [] K env id] } m ans0 r
   | cut {lv : Lv} {m : MS} {ans0 : List Term} {pc : List Op} {vars : List Nat} {k : Cont} {cp l : Nat} {env : Env}
       {R : List SLD.Frame} {q : Term} {nv n d : Nat} {r : SLD.Res}
       {N : Nat} {σ : Subst} {π : Nat → Nat} {D : Nat → Prop} {G' : List (Term × Nat)} :
       m.user.answers = ans0 → lv.lev cp = some l →
-      N ≤ m.user.nextVar → SimW tmpl N env σ π D nv → ContGoals tmpl max (.exec pc vars cp k) G' →
+      N ≤ m.user.nextVar → SimW tmpl N env σ π D nv → ContGoals fl tmpl max (.exec pc vars cp k) G' →
       GRel lv σ π D G' R → CutsOK lv G' → q = img σ π tmpl →
       (∀ it ∈ G', isCut it → ∀ l', lv.lev it.2 = some l' → l' ≤ l) →
       SLD.solve false (progS prog) n d nv R q (max - ans0.length) = some r →
-      PSpec tmpl max prog lv d (cutPromise pc vars k env cp) m ans0 (SLD.afterCut l r)
+      PSpec fl tmpl max prog lv d (cutPromise pc vars k env cp) m ans0 (SLD.afterCut l r)
+
+  | callp {lv : Lv} {m : MS} {ans0 : List Term} {id : Nat} {g' c : Term} {K : Cont} {env : Env}
+      {R : List SLD.Frame} {q : Term} {nv n d : Nat} {r : SLD.Res} :
+      m.user.answers = ans0 → id ≠ 0 → wfT g' = true → bodyS fl g' = true →
+      SimAt fl tmpl max lv K env m.user.nextVar R q nv
+        (fun σ π D => (∀ v, g'.hasVar v = true → RV σ D v) ∧ c = g'.rename π) →
+      SLD.solveAlts false (progS prog) n d nv [.frames (SLD.bodyFrames false c d)] R q (max - ans0.length) = some r →
+      PSpec fl tmpl max prog lv d
+        { id := id, delayed := [Thunk.clause (clauseOf (qClause g')) (argList (qHead g')) K env id] } m ans0 r
+
+/-! ### the side condition of `call/N`: inner fuel, and the goal called is a goal of the fragment -/
+
+/-- `Call` on `g` under `env` resolves and instantiates the goal within the model's inner fuel, and
+    the instantiated goal (if it is not a variable: instantiation error) is a body of the fragment -/
+def callOK (fl : Bool) (env : Env) (g : Term) : Prop :=
+  ∃ g0, resolve inner env g = some g0 ∧
+    ((∃ v, g0 = .var v) ∨ ∃ g', applyAll inner env g0 = some g' ∧ wfT g' = true ∧ bodyS fl g' = true)
+
+/-- the context `arrive` binds variable 0 to -/
+def indicator (f : String) (n : Nat) : Term := .app "/" (.cons (.atom f) (.cons (.int n) .nil))
+
+/-- every `arrive` at `call/1` that produces this result met the side condition -/
+def ResFine (fl : Bool) (res : Pr × MS) : Prop :=
+  ∀ (fuel : Nat) (g : Term) (K : Cont) (env : Env) (mm : MS),
+    arrive fuel "call" [g] K env mm = some res → callOK fl (env.bind varContext (indicator "call" 1)) g
+
+/-! ### the reference interpreter on `call/1` -/
+
+theorem solveAlts_frames (prog : List Term) (n d nv : Nat) (fs : List SLD.Frame) (rest : List SLD.Frame)
+    (q : Term) (limit : Nat) :
+    SLD.solveAlts false prog (n + 1) d nv [.frames fs] rest q limit =
+      match SLD.solve false prog n (d + 1) nv (fs ++ rest) q limit with
+      | none => none
+      | some r =>
+        match r.stop with
+        | .exhausted => (SLD.solveAlts false prog n d nv [] rest q (limit - r.answers.length)).map (SLD.Res.prepend r.answers)
+        | .cut c' => some { r with stop := if c' = d then .exhausted else .cut c' }
+        | _ => some r := by
+  rw [SLD.solveAlts]
+  rfl
+
+theorem goalS_isGoal {fl : Bool} {t : Term} (h : goalS fl t = true) : SLD.isGoal t = true := by
+  rcases goalS_cases h with rfl | h
+  · rfl
+  · rcases stepGoal_cases h with h | ⟨_, x, rfl⟩
+    · cases t <;> simp_all [hornGoal, SLD.isGoal]
+    · rfl
+
+theorem okBody_S {fl : Bool} {b : Term} (h : bodyS fl b = true) : SLD.okBody false b = true := by
+  simp only [SLD.okBody, Bool.false_eq_true, if_false, disjuncts_horn b h, List.all_cons, List.all_nil, Bool.and_true]
+  simp only [bodyS, List.all_eq_true] at h ⊢
+  exact fun t ht => goalS_isGoal (h t ht)
+
+theorem addArgs_nil {b : Term} (hw : wfT b = true) (hnv : ∀ v, b ≠ .var v) (hc : SLD.isGoal b = true) :
+    SLD.addArgs b [] = some b := by
+  cases b with
+  | var v => exact absurd rfl (hnv v)
+  | atom f => simp [SLD.addArgs, SLD.functor, Term.mk]
+  | app f as =>
+    cases as with
+    | nil => simp [wfT] at hw
+    | cons a as' => simp [SLD.addArgs, SLD.functor, Term.mk, Args.toList, Args.ofList]
+  | _ => simp [SLD.isGoal] at hc
+
+theorem bodyS_isGoal {fl : Bool} {b : Term} (h : bodyS fl b = true) (hnv : ∀ v, b ≠ .var v) : SLD.isGoal b = true := by
+  cases b with
+  | var v => exact absurd rfl (hnv v)
+  | atom _ => rfl
+  | app _ _ => rfl
+  | int i => simp [bodyS, SLD.conjuncts, SLD.wrapVar, goalS, stepGoal, isCall1, hornGoal] at h
+  | flt i => simp [bodyS, SLD.conjuncts, SLD.wrapVar, goalS, stepGoal, isCall1, hornGoal] at h
+  | str i => simp [bodyS, SLD.conjuncts, SLD.wrapVar, goalS, stepGoal, isCall1, hornGoal] at h
+
+theorem solve_call1 (prog : List Term) (n d nv l : Nat) (b : Term) (rest : List SLD.Frame) (q : Term) (limit : Nat)
+    {fl : Bool} (hb : bodyS fl b = true) (hw : wfT b = true) (hnv : ∀ v, b ≠ .var v) :
+    SLD.solve false prog (n + 1) d nv (.goal (SLD.call1 b) l :: rest) q limit =
+      SLD.solveAlts false prog n d nv [.frames ((SLD.conjuncts b).map (SLD.Frame.goal · d))] rest q limit := by
+  rw [SLD.solve]
+  · simp only [SLD.call1, SLD.functor, Args.toList, List.length_nil, Nat.not_lt_zero, if_false,
+      addArgs_nil hw hnv (bodyS_isGoal hb hnv), okBody_S hb, if_true, SLD.bodyAlts, Bool.false_eq_true,
+      disjuncts_horn b hb, List.map_cons, List.map_nil, SLD.bodyFrames]
+  · intro v hv; cases hv
+
+theorem solve_call_var (prog : List Term) (n d nv l v : Nat) (rest : List SLD.Frame) (q : Term) (limit : Nat) :
+    SLD.solve false prog (n + 1) d nv (.goal (SLD.call1 (.var v)) l :: rest) q limit = SLD.raise SLD.instErr := by
+  rw [SLD.solve]
+  · simp [SLD.call1, SLD.functor, Args.toList, SLD.addArgs]
+  · intro v hv; cases hv
+
+theorem conjuncts_rename (ρ : Nat → Nat) (b : Term) :
+    SLD.conjuncts (b.rename ρ) = (SLD.conjuncts b).map (Term.rename ρ) := by
+  fun_induction SLD.conjuncts b with
+  | case1 a b iha ihb =>
+    have e : (Term.app "," (.cons a (.cons b .nil))).rename ρ = .app "," (.cons (a.rename ρ) (.cons (b.rename ρ) .nil)) := rfl
+    rw [e]
+    simp only [SLD.conjuncts, List.map_append, iha, ihb]
+  | case2 t hne =>
+    have hne' : ∀ a b, t.rename ρ ≠ .app "," (.cons a (.cons b .nil)) := by
+      intro a b heq
+      cases t with
+      | app f as =>
+        simp only [Term.rename, Term.subst, Term.app.injEq] at heq
+        obtain ⟨rfl, has⟩ := heq
+        cases as with
+        | nil => simp [Args.subst] at has
+        | cons x xs => cases xs with
+          | nil => simp [Args.subst] at has
+          | cons y ys => cases ys with
+            | nil => exact hne x y rfl
+            | cons _ _ => simp [Args.subst] at has
+      | var v => simp [Term.rename, Term.subst] at heq
+      | _ => simp [Term.rename, Term.subst] at heq
+    have h1 : SLD.conjuncts (t.rename ρ) = [SLD.wrapVar (t.rename ρ)] := by
+      unfold SLD.conjuncts
+      split
+      · rename_i a b heq; exact absurd heq (hne' a b)
+      · rfl
+    rw [h1]
+    cases t <;> simp [Term.rename, Term.subst, SLD.wrapVar, SLD.call1, Args.subst]
+
+theorem goalS_rename (fl : Bool) (ρ : Nat → Nat) (t : Term) : goalS fl (t.rename ρ) = goalS fl t := by
+  simp only [goalS, stepGoal_rename]
+  have : (t.rename ρ == Term.atom "!") = (t == Term.atom "!") := by
+    cases t with
+    | var v =>
+      have h1 : (Term.rename ρ (.var v) == Term.atom "!") = false := by simp [Term.rename, Term.subst]
+      have h2 : (Term.var v == Term.atom "!") = false := by simp
+      rw [h1, h2]
+    | app f as =>
+      have h1 : (Term.rename ρ (.app f as) == Term.atom "!") = false := by simp [Term.rename, Term.subst]
+      have h2 : (Term.app f as == Term.atom "!") = false := by simp
+      rw [h1, h2]
+    | _ => rfl
+  rw [this]
+
+theorem bodyS_rename (fl : Bool) (ρ : Nat → Nat) (b : Term) : bodyS fl (b.rename ρ) = bodyS fl b := by
+  unfold bodyS
+  rw [conjuncts_rename, List.all_map]
+  congr 1
+  funext t
+  simp only [Function.comp, goalS_rename]
 
 /-! ### the bootstrap clause `true.` -/
 
